@@ -50,6 +50,31 @@ fn hex_encode<const UPPER: bool>(src: &[u8], dst: &mut [u8]) {
     };
 }
 
+fn generic_hex_small<N, const UPPER: bool>(
+    arr: &GenericArray<u8, N>,
+    input: &[u8],
+    max_digits: usize,
+    f: &mut fmt::Formatter<'_>,
+) -> fmt::Result
+where
+    N: ArrayLength + Add<N>,
+    Sum<N, N>: ArrayLength,
+{
+    // For small arrays use a stack allocated buffer of 2x number of bytes
+    let mut buf = GenericArray::<u8, Sum<N, N>>::default();
+
+    if N::USIZE < 16 {
+        // for the smallest inputs, don't bother limiting to max_bytes,
+        // just process the entire array. When "faster-hex" is enabled,
+        // this avoids its logic that winds up going to the fallback anyway
+        hex_encode_fallback::<UPPER>(arr, &mut buf);
+    } else {
+        hex_encode::<UPPER>(input, &mut buf);
+    }
+
+    f.write_str(unsafe { str::from_utf8_unchecked(buf.get_unchecked(..max_digits)) })
+}
+
 fn generic_hex<N, const UPPER: bool>(
     arr: &GenericArray<u8, N>,
     f: &mut fmt::Formatter<'_>,
@@ -77,19 +102,9 @@ where
     };
 
     if N::USIZE <= 1024 {
-        // For small arrays use a stack allocated buffer of 2x number of bytes
-        let mut buf = GenericArray::<u8, Sum<N, N>>::default();
-
-        if N::USIZE < 16 {
-            // for the smallest inputs, don't bother limiting to max_bytes,
-            // just process the entire array. When "faster-hex" is enabled,
-            // this avoids its logic that winds up going to the fallback anyway
-            hex_encode_fallback::<UPPER>(arr, &mut buf);
-        } else {
-            hex_encode::<UPPER>(input, &mut buf);
-        }
-
-        f.write_str(unsafe { str::from_utf8_unchecked(buf.get_unchecked(..max_digits)) })?;
+        // kept in a function of its own: its 2N-byte buffer must not be part of this
+        // function's frame, which is also the frame of the large-array path below
+        generic_hex_small::<N, UPPER>(arr, input, max_digits, f)?;
     } else {
         // For large array use chunks of up to 1024 bytes (2048 hex chars)
         let mut buf = [0u8; 2048];
